@@ -23,12 +23,30 @@ func Calc(ctx context.Context, proc *query.Processor, expr string) error {
 		e.Message = "syntax error"
 		return query.NewSyntaxError(e)
 	}
-	selectEntity, _ := program[0].(parser.SelectQuery).SelectEntity.(parser.SelectEntity)
+	// the argument is a list of values: anything that turns the text into another kind of query is a syntax error
+	syntaxError := func() error {
+		return query.NewSyntaxError(&parser.SyntaxError{Message: "syntax error"})
+	}
+	if len(program) != 1 {
+		return syntaxError()
+	}
+	selectQuery, ok := program[0].(parser.SelectQuery)
+	if !ok {
+		return syntaxError()
+	}
+	selectEntity, ok := selectQuery.SelectEntity.(parser.SelectEntity)
+	if !ok {
+		return syntaxError()
+	}
+	fromClause, ok := selectEntity.FromClause.(parser.FromClause)
+	if !ok {
+		return syntaxError()
+	}
 
 	scope := query.NewReferenceScope(proc.Tx)
 	queryScope := scope.CreateNode()
 
-	view, err := query.LoadView(ctx, queryScope, selectEntity.FromClause.(parser.FromClause).Tables, false, false)
+	view, err := query.LoadView(ctx, queryScope, fromClause.Tables, false, false)
 	if err != nil {
 		if appErr, ok := err.(query.Error); ok {
 			err = errors.New(appErr.Message())
